@@ -384,7 +384,15 @@ def rule_store(R):
          "perform_outbound_step records written_before + count of the write that just completed", where=pb.span)
 
 
+def rule_ping(R):
+    """cancelling at a pending flush must not change what is sent: the "already queued" test that keeps the keep-alive
+    from queueing a second PINGREQ has to see the one whose flush is still outstanding (shared with C10)"""
+    from .c10 import clause_pending_ping_states
+    clause_pending_ping_states(R, "ping/pending-states")
+
+
 def run(R):
+    R.rule("ping", rule_ping)
     R.rule("progress", rule_progress)
     R.rule("atomic", rule_atomic)
     R.rule("enq", rule_enq)
